@@ -383,6 +383,7 @@ class Model:
             return A if c else B  ->  if c: return A;  return B
             a_ = self.a; .. a_ ..  ->  .. self.a ..   (a_ bound at the top of the method only, self.a never stored in it)
             PAIR[bool(c)]     ->  PAIR[1] if c else PAIR[0]   (PAIR a two-element class / module constant)
+            with R.cm() as v: B   ->  pre; v = E; B; post      (cm a @contextmanager method `pre; yield E; post` of the module)
         """
         import re as _re
 
@@ -535,6 +536,102 @@ class Model:
                         fn_node.body[i_] = A().visit(b)
                     if not fn_node.body:
                         fn_node.body.append(ast.copy_location(ast.Pass(), st))
+        def inline_context_managers(mod_tree):
+            """with R.cm() as v: BODY   ->   <pre>; v = E; BODY; <post>      for a method `cm(self)` of this module decorated with
+            @contextmanager whose body is `<pre>; yield E; <post>` (or `<pre>; try: yield E finally: <post>`), one yield, no return;
+            `self` in it reads as R.  BODY must leave by its end only (a return inside it still runs <post>: left alone)."""
+            import copy as _c
+            cms = {}
+            for c in ast.walk(mod_tree):
+                if not isinstance(c, ast.ClassDef):
+                    continue
+                for f in c.body:
+                    if isinstance(f, ast.FunctionDef) and any((isinstance(d, ast.Name) and d.id == "contextmanager") or
+                                                                (isinstance(d, ast.Attribute) and d.attr == "contextmanager") for d in f.decorator_list):
+                        cms.setdefault(f.name, []).append(f)
+            cms = {k: v[0] for k, v in cms.items() if len(v) == 1}
+            if not cms:
+                return
+
+            def parts(f):
+                if len(f.args.args) != 1 or f.args.vararg or f.args.kwarg or f.args.kwonlyargs:
+                    return None
+                body = [x for x in f.body if not (isinstance(x, ast.Expr) and isinstance(x.value, ast.Constant))]
+                ys = [x for x in ast.walk(f) if isinstance(x, (ast.Yield, ast.YieldFrom))]
+                if len(ys) != 1 or isinstance(ys[0], ast.YieldFrom) or any(isinstance(x, ast.Return) for x in ast.walk(f)):
+                    return None
+                for i, st in enumerate(body):
+                    if isinstance(st, ast.Expr) and st.value is ys[0]:
+                        if any(isinstance(x, (ast.Try, ast.With)) for b in body for x in ast.walk(b)):
+                            return None
+                        return body[:i], ys[0].value, body[i + 1:], False
+                    if isinstance(st, ast.Try) and not st.handlers and not st.orelse and len(st.body) == 1 and isinstance(st.body[0], ast.Expr) and \
+                            st.body[0].value is ys[0] and i == len(body) - 1:
+                        return body[:i], ys[0].value, st.finalbody, True
+                return None
+
+            def pure_chain(e):
+                return isinstance(e, ast.Name) or (isinstance(e, ast.Attribute) and pure_chain(e.value))
+
+            def expand(stmts):
+                out = []
+                for st in stmts:
+                    if isinstance(st, (ast.FunctionDef, ast.AsyncFunctionDef)) and st.name in cms:
+                        out.append(st)
+                        continue
+                    for fld in ("body", "orelse", "finalbody"):
+                        v = getattr(st, fld, None)
+                        if isinstance(v, list) and v and isinstance(v[0], ast.stmt):
+                            v[:] = expand(v)
+                    for h in getattr(st, "handlers", []) or []:
+                        h.body[:] = expand(h.body)
+                    done = False
+                    if isinstance(st, ast.With) and len(st.items) == 1:
+                        it = st.items[0]
+                        ce = it.context_expr
+                        if isinstance(ce, ast.Call) and not ce.args and not ce.keywords and isinstance(ce.func, ast.Attribute) and ce.func.attr in cms and \
+                                pure_chain(ce.func.value) and (it.optional_vars is None or isinstance(it.optional_vars, ast.Name)) and \
+                                not any(isinstance(x, (ast.Return, ast.Break, ast.Continue, ast.Yield)) for b in st.body for x in ast.walk(b)):
+                            pt = parts(cms[ce.func.attr])
+                            if pt is not None:
+                                pre, val, post, fin = pt
+                                me = cms[ce.func.attr].args.args[0].arg
+                                recv = ce.func.value
+
+                                class S(ast.NodeTransformer):
+                                    def visit_Name(self, n):
+                                        if n.id == me:
+                                            return ast.copy_location(_c.deepcopy(recv), n)
+                                        return n
+
+                                def at(x):
+                                    x = S().visit(_c.deepcopy(x))
+                                    for y in ast.walk(x):
+                                        if hasattr(y, "lineno"):
+                                            y.lineno = st.lineno
+                                            y.end_lineno = st.lineno
+                                    return x
+                                new = [at(x) for x in pre]
+                                if val is not None:
+                                    v_ = at(val)
+                                    new.append(ast.copy_location(ast.Assign(targets=[ast.copy_location(ast.Name(id=it.optional_vars.id, ctx=ast.Store()), st)], value=v_)
+                                                                 if it.optional_vars is not None else ast.Expr(value=v_), st))
+                                elif it.optional_vars is not None:
+                                    new.append(ast.copy_location(ast.Assign(targets=[ast.copy_location(ast.Name(id=it.optional_vars.id, ctx=ast.Store()), st)],
+                                                                            value=ast.copy_location(ast.Constant(value=None), st)), st))
+                                tail = [at(x) for x in post]
+                                if fin:
+                                    new.append(ast.copy_location(ast.Try(body=st.body, handlers=[], orelse=[], finalbody=tail), st))
+                                else:
+                                    new.extend(st.body)
+                                    new.extend(tail)
+                                out.extend(new)
+                                done = True
+                    if not done:
+                        out.append(st)
+                return out
+            mod_tree.body[:] = expand(mod_tree.body)
+
         rescan: list = []
         all_pairs = {}
         for m_ in self.mods.values():
@@ -590,6 +687,7 @@ class Model:
                     rescan.append(mod_tree)
         for m in self.mods.values():
             bool_indexed(m.tree)
+            inline_context_managers(m.tree)
             T().visit(m.tree)
             for n in ast.walk(m.tree):
                 if isinstance(n, (ast.FunctionDef, ast.AsyncFunctionDef)):
